@@ -164,6 +164,28 @@ CLAIMED["C11"] = dict(
     note=FS_NOTE,
 )
 
+TSYS_NOTE = ("Trusted base: go/ssa construction, the tsys translator's semantics for the supported SSA instruction kinds (anything else aborts as unsupported), the contracts used for "
+    "sync.Mutex / sync.Cond (no spurious wake-ups) / sync.Map / sync/atomic / rand.Intn, sequentially consistent memory (supported by the data-race query), z3 5.1.0. "
+    "Critical sections are fused into one transition (Lipton reduction) only for accesses made while holding the protecting mutex. Counterexamples are replayed on the real work.go under a cooperative scheduler shim. "
+    "Bounded claim only.")
+CLAIMED["C09"] = dict(
+    engine="tsys",
+    technique="bounded model checking: par.Work's go/ssa is translated to a transition system; scheduler, rand.Intn picks, Signal wake-up choices, item graph and initial adds are solver variables; z3 decides safety, deadlock and an unwinding assertion",
+    text=("(*Work).Do, runner, Add and init are translated from their SSA form into guarded transitions (one per scheduling point; lock-protected regions fused) and unrolled K steps with the scheduler as a bit-vector per step. "
+          "z3 shows, for every schedule, every rand.Intn pick, every choice of woken waiter, every item graph and every set of initial adds inside the bound: f runs at most once per item and exactly once for every added item, never more than n calls in progress, "
+          "Do returns only when everything is done and nothing is left, no deadlock or lost wake-up, and every schedule finishes within K steps (unwinding assertion); a witness run must exist."),
+    design_ref="DESIGN.md §4 C09",
+    note=TSYS_NOTE,
+)
+CLAIMED["C10"] = dict(
+    engine="tsys",
+    technique="bounded model checking: par.Cache's go/ssa translated to a transition system with a symbolic scheduler and solver-chosen call kinds; z3 decides safety, deadlock, data-race freedom and an unwinding assertion",
+    text=("(*Cache).Do and Get are translated from SSA; each goroutine performs one call chosen by the solver from Do/Get on two keys; sync.Map and atomic operations are individual transitions. z3 shows for every schedule inside the bound: "
+          "the function is invoked at most once per key, every Do returns that invocation's value and only after it completed, Get returns nil or that value and never blocks (no deadlock), and no two goroutines are simultaneously enabled at conflicting plain accesses to an entry's result."),
+    design_ref="DESIGN.md §4 C10",
+    note=TSYS_NOTE,
+)
+
 NOT_APPLICABLE = {
     "C20": "goproxytest's behaviour lives in net/http, archive/zip+flate, encoding/json (reflection) and directory walks; none is encodable by the SSA symbolic executor, and with them stubbed nothing solver-relevant remains (its once-per-key ingredient is par.Cache = C10)",
 }
